@@ -23,7 +23,7 @@ PROPS = {
     "C07": dict(pkg="c07", shards=(6, 12), timeout=(600, 5400), fuzz=[("FuzzBoc", 300, 6)]),
     "C02": dict(pkg="c02", shards=(4, 16), timeout=(300, 3600)),
     "C03": dict(pkg="c03", shards=(4, 16), timeout=(600, 3600), typereg=True),
-    "C09": dict(pkg="c09", shards=(2, 8), timeout=(900, 5400), run="^(TestReplay|TestProp)$"),
+    "C09": dict(pkg="c09", shards=(2, 8), timeout=(900, 5400)),
     "C10": dict(pkg="c10", shards=(2, 8), timeout=(600, 3600)),
     "C11": dict(pkg="c11", shards=(4, 16), timeout=(600, 3600)),
     "C12": dict(pkg="c12", race=True, shards=(3, 8), timeout=(900, 5400)),
